@@ -13,7 +13,7 @@ import values
 
 LEAN_MODULE = "Kio.Props.C15"
 THEOREMS = ["Kio.C15.immutable", "Kio.C15.mutation_rejected", "Kio.C15.hash_consistent", "Kio.C15.hashable",
-            "Kio.C15.copies_equal", "Kio.C15.no_new_attributes", "Kio.C15.shipped_params"]
+            "Kio.C15.copies_equal", "Kio.C15.no_new_attributes", "Kio.C15.shipped_params", "Kio.C15.shipped_record_params"]
 
 
 def immutable_value(v) -> bool:
